@@ -44,6 +44,10 @@ class LeakMixin:
             # the caller learns from packets_ready / num_packets_ready whether it has to retrieve PDUs: a counter that disagrees with the
             # queue makes the next 'unretrieved PDUs' error (or a retrieval that yields nothing) the library's fault, not the caller's
             bad("C10.packet_counter", f"num_packets_ready is {h.num_packets_ready} but {len(h._pdus_to_be_sent)} PDUs are queued", ev=ev[0])
+        abandoned = any(f["fault"] == "abandon" for f in out.get(ent_key, {}).get("faults", []))
+        if ev[0] != "get" and len(h._pdus_to_be_sent) < out["queued"] and not abandoned:
+            # a PDU that was generated but not fetched yet does not vanish (only abandoning a transaction drops what it has queued)
+            bad("C10.queued_pdu_lost", f"{out['queued']} PDUs were queued on entry, {len(h._pdus_to_be_sent)} are queued now although none was fetched", ev=ev[0])
         if not e:
             return v
         if not e["protocol"]:
@@ -84,6 +88,7 @@ class C10Dst(DstWorld, LeakMixin):
             # Metadata PDUs whose destination file name is unusual but well-formed (any octet string is a valid LV value)
             names = ("out/a\x00b", "out", "out/", "nodir/x", ".", "..", "out/../out/dst.bin", "/", " ")
             A = [("pdu", "MD", None, T(dname=n, size=size)) for n in names] + \
+                [("pdu", "MD", None, T(dname=None, size=size)), ("pdu", "MD", None, T(sname=None, size=size)), ("pdu", "MD", None, T(sname=None, dname=None, size=0))] + \
                 [("tick",), ("get",), ("fd", 0, 2, 0), ("eof", size, "NO_ERROR", 1), ("cancel", "right"), ("expire",)]
         if cfg.get("variant") == "fd":
             # File Data at every offset / small length (retransmissions, overlaps, straddles), Metadata, EOF
